@@ -213,6 +213,22 @@ def has_forall(
         for b in f.body:
             if b.kind == "atom" and norm.any_match(ts, b.expr, binds) is not None:
                 return f
+    # the same said in one expression: `not any(p(v) for v in D)` / `all(q(v) for v in D)` (quantifier normal form)
+    for f in site.facts:
+        if f.kind != "atom":
+            continue
+        q = norm.qnf(f.expr)
+        if q is None or q[0] != "all" or not isinstance(q[1], str):
+            continue
+        _, var, dom, filters, body = q
+        if filters:
+            continue
+        if domain_ok is not None and not domain_ok(dom):
+            continue
+        binds = {var_hole: ast.Name(var, ast.Load())}
+        for a_ in norm.atoms(body, True):
+            if norm.any_match(ts, a_, binds) is not None:
+                return f
     return None
 
 
